@@ -699,6 +699,7 @@ func (i *InsertStatement) SQL() string {
 	if i.OnConflict != nil {
 		sb.WriteString(onConflictSQL(i.OnConflict))
 	}
+	sb.WriteString(onDuplicateKeySQL(i.OnDuplicateKey))
 
 	if len(i.Returning) > 0 {
 		sb.WriteString(" RETURNING ")
@@ -706,6 +707,18 @@ func (i *InsertStatement) SQL() string {
 	}
 
 	return sb.String()
+}
+
+// onDuplicateKeySQL writes MySQL's ON DUPLICATE KEY UPDATE clause ("" when absent).
+func onDuplicateKeySQL(u *UpsertClause) string {
+	if u == nil || len(u.Updates) == 0 {
+		return ""
+	}
+	parts := make([]string, len(u.Updates))
+	for i, up := range u.Updates {
+		parts[i] = exprSQL(up.Column) + " = " + exprSQL(up.Value)
+	}
+	return " ON DUPLICATE KEY UPDATE " + strings.Join(parts, ", ")
 }
 
 func (u *UpdateStatement) SQL() string {
